@@ -118,6 +118,37 @@ func c06Threshold(e *Engine, res *EpisodeResult, spec *plan.Script, label string
 			e.violate("C06.alloc", "%s: budget %d changes the result: %s vs unlimited %s", label, n, clip(lr.globals), clip(unl.globals))
 		}
 	}
+	// the budget is per run: at the threshold the same object succeeds again, and so does a clone
+	{
+		sp := *spec
+		sp.HasLimit, sp.MaxAllocs = true, A
+		if s, err := e.BuildScript(&sp); err == nil {
+			if c, err := s.Compile(); err == nil {
+				e1 := c.RunContext(context.Background())
+				e2 := c.RunContext(context.Background())
+				cl := c.Clone()
+				e3 := cl.RunContext(context.Background())
+				e4 := cl.Clone().RunContext(context.Background())
+				res.Evals += 4
+				if e1 != nil || e2 != nil || e3 != nil || e4 != nil {
+					e.violate("C06.alloc", "%s: with budget %d the first run gives %v, the second run of the same object %v, a clone %v, a clone of the clone %v", label, A, e1, e2, e3, e4)
+				}
+				if A > 0 {
+					// and one below the threshold a clone fails like the original
+					sp.MaxAllocs = A - 1
+					if s2, err := e.BuildScript(&sp); err == nil {
+						if c2, err := s2.Compile(); err == nil {
+							e5 := c2.Clone().RunContext(context.Background())
+							res.Evals++
+							if e5 == nil || !errors.Is(e5, tengo.ErrObjectAllocLimit) {
+								e.violate("C06.alloc", "%s: a clone of an object compiled with budget %d (one below the threshold) ends with %v", label, A-1, e5)
+							}
+						}
+					}
+				}
+			}
+		}
+	}
 	// a failed limited run leaves the object usable: same object, second run, same outcome
 	if A > 0 {
 		sp := *spec
